@@ -154,7 +154,20 @@ func MultiDoc(thorough bool, yield func(u *Universe, desc string, alias bool)) {
 		for i := 0; i < ne; i++ {
 			nf *= 3
 		}
-		for fv := 0; fv < nf; fv++ {
+		// after the valid forms: each single edge with a dangling fragment (anchor / pointer that
+		// names nothing in the target document), the other edges keeping fragment form fv%nf
+		for fv := 0; fv < nf+2*ne*nf/3; fv++ {
+			dangEdge, dangForm := -1, ""
+			if fv >= nf {
+				x := fv - nf
+				dangEdge = x % ne
+				x /= ne
+				dangForm = []string{"#nope", "#/$defs/nope"}[x%2]
+				x /= 2
+				if !thorough && x%3 != 0 {
+					continue // quick: one assignment of the other edges in three
+				}
+			}
 			// $id mode per document: 0 none, 1 = retrieval, 2 = canonical alias
 			nm := 1
 			for range sh.docs {
@@ -193,9 +206,15 @@ func MultiDoc(thorough bool, yield func(u *Universe, desc string, alias bool)) {
 					}
 					props := map[string][]string{}
 					y := fv
-					for _, e := range sh.edges {
+					if dangEdge >= 0 {
+						y = (fv - nf) / (2 * ne) * 7 // some assignment of the other edges
+					}
+					for ei, e := range sh.edges {
 						fr := fragForms[y%3]
 						y /= 3
+						if ei == dangEdge {
+							fr = dangForm
+						}
 						target := retr[e.to]
 						if e.viaC {
 							target = canon[e.to]
